@@ -1810,6 +1810,8 @@ def closed_refusals(rep, rule, c, what, extra=(), ignore_exc=("AssertionError",)
     for conds, e, loops, ln, via in raise_sites(c, depth=0):
         if e in ignore_exc:
             continue
+        if e in (None, "?", ""):
+            continue                                    # a bare `raise` inside an except handler passes on what was raised
         n += 1
         if new_params and conds:
             last = c.norm(conds[-1][0])
